@@ -75,19 +75,53 @@ def bv(v, bits):
     return z3.BitVecVal(v, bits) if type(v) is int else v
 
 
+_TSIZE = {}          # ast id -> approximate term size (terms built by the executor)
+SMALL = 48
+
+
+def tsz(v):
+    if type(v) is int or v is None:
+        return 0
+    try:
+        return _TSIZE.get(v.get_id(), 1)
+    except AttributeError:
+        return 0
+
+
+def note(r, *ops):
+    """record the approximate size of a freshly built term"""
+    if type(r) is not int and r is not None:
+        n = 1
+        for o in ops:
+            n += tsz(o)
+        try:
+            _TSIZE[r.get_id()] = n if n < 1000000 else 1000000
+        except AttributeError:
+            pass
+    return r
+
+
+def small_term(e, budget=SMALL):
+    return tsz(e) <= budget
+
+
 def frag_byte(f):
     """lazy fragment -> BV8 / int"""
     val, k, n = f
     if isinstance(val, (Ptr, Fn)):
         raise Unsupported("byte access to a stored pointer")
-    e = z3.simplify(z3.Extract(8 * k + 7, 8 * k, val))
-    if z3.is_bv_value(e):
-        return e.as_long()
-    return e
+    e = z3.Extract(8 * k + 7, 8 * k, val)
+    if small_term(val):
+        e = z3.simplify(e)
+        if z3.is_bv_value(e):
+            return e.as_long()
+    return note(e, val)
 
 
 class Machine(object):
     def __init__(self, module, stubs=None, step_budget=2000000):
+        if len(_TSIZE) > 3000000:
+            _TSIZE.clear()
         self.mod = module
         self.objs = []
         self.next_base = 0x10000
@@ -234,7 +268,7 @@ class Machine(object):
             return v
         if n == 1:
             return parts[0]
-        return z3.Concat(*[bv(x, 8) for x in reversed(parts)])
+        return note(z3.Concat(*[bv(x, 8) for x in reversed(parts)]), *parts)
 
     def store(self, p, n, v):
         o, off = self._check(p, n, True)
@@ -367,18 +401,22 @@ class Machine(object):
         if op == 'zext':
             if type(v) is int:
                 return v
-            return z3.ZeroExt(t2.bits - t1.bits, v)
+            return note(z3.ZeroExt(t2.bits - t1.bits, v), v)
         if op == 'sext':
             if type(v) is int:
                 if v >> (t1.bits - 1):
                     v |= mask(t2.bits) ^ mask(t1.bits)
                 return v
-            return z3.SignExt(t2.bits - t1.bits, v)
+            return note(z3.SignExt(t2.bits - t1.bits, v), v)
         if op == 'trunc':
             if type(v) is int:
                 return v & mask(t2.bits)
-            r = z3.simplify(z3.Extract(t2.bits - 1, 0, v))
-            return r.as_long() if z3.is_bv_value(r) else r
+            r = z3.Extract(t2.bits - 1, 0, v)
+            if small_term(v):
+                # (simplifying huge terms at every truncation is quadratic in constant-time loops)
+                r = z3.simplify(r)
+                return r.as_long() if z3.is_bv_value(r) else note(r, v)
+            return note(r, v)
         if op == 'ptrtoint':
             if isinstance(v, Ptr):
                 if type(v.off) is not int:
@@ -804,7 +842,7 @@ class Machine(object):
                             regs[ins[1]] = a if self.decide(c == 1) else b
                         else:
                             bits = ins[2].bits
-                            regs[ins[1]] = z3.If(c == 1, bv(a, bits), bv(b, bits))
+                            regs[ins[1]] = note(z3.If(c == 1, bv(a, bits), bv(b, bits)), c, a, b)
                     elif op == 'alloca':
                         t = ins[2]
                         ir.layout(t)
@@ -908,25 +946,25 @@ class Machine(object):
             raise Unsupported("integer arithmetic on a pointer")
         x, y = bv(a, bits), bv(b, bits)
         if op == 'add':
-            return x + y
+            return note(x + y, a, b)
         if op == 'sub':
-            return x - y
+            return note(x - y, a, b)
         if op == 'mul':
-            return x * y
+            return note(x * y, a, b)
         if op == 'and':
             if type(b) is int and b == 0 or type(a) is int and a == 0:
                 return 0
-            return x & y
+            return note(x & y, a, b)
         if op == 'or':
-            return x | y
+            return note(x | y, a, b)
         if op == 'xor':
-            return x ^ y
+            return note(x ^ y, a, b)
         if op == 'shl':
-            return x << y
+            return note(x << y, a, b)
         if op == 'lshr':
-            return z3.LShR(x, y)
+            return note(z3.LShR(x, y), a, b)
         if op == 'ashr':
-            return x >> y
+            return note(x >> y, a, b)
         if op in ('udiv', 'urem', 'sdiv', 'srem'):
             if self.decide(y == 0):
                 raise MemError("div-by-zero", op)
@@ -964,12 +1002,13 @@ class Machine(object):
         c = dict(eq=lambda: x == y, ne=lambda: x != y, ult=lambda: z3.ULT(x, y), ule=lambda: z3.ULE(x, y),
                  ugt=lambda: z3.UGT(x, y), uge=lambda: z3.UGE(x, y), slt=lambda: x < y, sle=lambda: x <= y,
                  sgt=lambda: x > y, sge=lambda: x >= y)[pred]()
-        c = z3.simplify(c)
-        if z3.is_true(c):
-            return 1
-        if z3.is_false(c):
-            return 0
-        return z3.If(c, _ONE1, _ZERO1)
+        if tsz(a) + tsz(b) <= SMALL:
+            c = z3.simplify(c)
+            if z3.is_true(c):
+                return 1
+            if z3.is_false(c):
+                return 0
+        return note(z3.If(c, _ONE1, _ZERO1), a, b)
 
     # symbolic-offset accesses (table look-ups): ite over every feasible position
     def _feasible_offsets(self, p, n, cap=260):
